@@ -159,6 +159,19 @@ def build_cases(tier):
                 if cfg and tier == "quick" and n.islower() and "_" not in n:
                     continue  # snake-casing is the identity on these names
                 add("member_name", sch, q, cfg, tags={"member_name", f"name:{n}@{pos}"} | {f"{k}={v}" for k, v in cfg.items()})
+    # a configured custom scalar at exactly ONE position of the package (nothing else brings its imports along)
+    sc_schema = "scalar Date\ninput DI { d: Date }\ninput DLI { ds: [Date!] }\ntype R { d: Date ds: [Date!]! }\ntype Query { r: R v(d: Date): Int vl(ds: [Date!]!): Int vll(dss: [[Date]]): Int i(x: DI): Int il(x: DLI): Int }\n"
+    sc_positions = {"variable": "query P($d: Date) { v(d: $d) }", "list_variable": "query P($ds: [Date!]!) { vl(ds: $ds) }", "nested_list_variable": "query P($dss: [[Date]]) { vll(dss: $dss) }",
+                    "result": "query P { r { d } }", "list_result": "query P { r { ds } }", "input_field": "query P($x: DI) { i(x: $x) }", "list_input_field": "query P($x: DLI) { il(x: $x) }"}
+    sc_cfgs = {"dotted_type": ({"Date": {"type": "datetime.date"}}, {}), "type_parse_serialize": (
+        {"Date": {"type": "datetime.date", "parse": ".custom_scalars.parse_date", "serialize": ".custom_scalars.serialize_date"}}, {"custom_scalars.py": SCALARS_PY})}
+    for pos, q in sc_positions.items():
+        for cn, (scal, fl) in sc_cfgs.items():
+            for extra in ({}, {"async_client": False}, {"include_all_inputs": False}):
+                opts = dict(extra, scalars=scal)
+                if fl:
+                    opts["files_to_include"] = ["@custom_scalars.py"]
+                add("scalar_position", sc_schema, q + "\n", opts, files=fl, tags={"scalar_position", f"scalar_at:{pos}", f"scalar_cfg:{cn}"} | {f"{k}={v}" for k, v in extra.items()})
     # refusals
     add("anon", corpus.SCHEMA_K, "{ user { id } }\n", expect="refusal", tags={"refusal:anonymous"})
     add("anon2", corpus.SCHEMA_K, "query { user { id } }\n", expect="refusal", tags={"refusal:anonymous"})
